@@ -391,6 +391,43 @@ fn c13_oracle<T: El>(a: &mut SetWorld<T>, b: &mut SetWorld<T>, _spec: &ShardSpec
 }
 
 // ---------------------------------------------------------------------------------------------
+// C11 for sets (HashSet::clone / clone_from delegate to the map's): same statement, read for sets
+fn c11_set_oracle<T: El>(a: &mut SetWorld<T>, b: &mut SetWorld<T>, _spec: &ShardSpec, variant: usize) -> VResult<u64> {
+    let want: Vec<u32> = a.r.keys().copied().collect();
+    let wset: BTreeSet<u32> = want.iter().copied().collect();
+    let probes: Vec<u32> = a.r.keys().chain(b.r.keys()).copied().chain([a.next_key.max(b.next_key) + 2]).collect();
+    let probe_to = a.next_key.max(b.next_key) + 4;
+    if variant == 0 {
+        let mut c = window(|| a.s.clone());
+        vcheck_eq!("set clone contents", ids_of(c.iter(), "set clone")?, want.clone());
+        vcheck_eq!("set clone == source", c == a.s && a.s == c, true);
+        if c.hasher().seed != a.s.hasher().seed || c.hasher().kind != a.s.hasher().kind {
+            vbail!("mismatch", "clone() of a set has another hasher state than its source");
+        }
+        working_set(&mut c, &wset, &probes, probe_to, "set.clone()")?;
+        window(|| drop(c));
+    } else {
+        // the destination discards what it held (also in its old table) and adopts the source's hasher
+        b.s.clone_from(&a.s);
+        vcheck_eq!("set clone_from contents", ids_of(b.s.iter(), "set clone_from")?, want.clone());
+        vcheck_eq!("set clone_from == source", b.s == a.s && a.s == b.s, true);
+        if b.s.hasher().seed != a.s.hasher().seed || b.s.hasher().kind != a.s.hasher().kind {
+            vbail!("mismatch", "clone_from did not adopt the source's hasher (source seed {}, destination seed {})", a.s.hasher().seed, b.s.hasher().seed);
+        }
+        b.r = b.s.iter().map(|x| (x.id(), x.obj())).collect();
+        b.next_key = b.next_key.max(a.next_key);
+        b.audit(true)?;
+        working_set(&mut b.s, &wset, &probes, probe_to, "set after clone_from")?;
+        b.r = b.s.iter().map(|x| (x.id(), x.obj())).collect();
+        b.next_key = b.next_key.max(probe_to + 2);
+    }
+    // the source is untouched
+    vcheck_eq!("source after clone", ids_of(a.s.iter(), "source")?, want);
+    a.audit(true)?;
+    Ok(variant as u64 ^ (a.r.len() as u64) << 8)
+}
+
+// ---------------------------------------------------------------------------------------------
 // C11: clone / clone_from
 
 /// The small alphabet of divergent steps after a clone.
@@ -580,6 +617,8 @@ pub fn run_e3(spec: &ShardSpec, cur: Option<&str>) -> Outcome {
         ("C11", "map", "u32") => run_pairs::<MapWorld<u32>>(spec, cur, fam_map, &[RENAMES[0], RENAMES[3]], &[(1, 1), (1, 2), (2, 1)], c11_variants(spec), &c11_oracle::<u32>),
         ("C11", "map", "tk") => run_pairs::<MapWorld<Tk>>(spec, cur, fam_map, &[RENAMES[0], RENAMES[3]], &[(1, 1), (1, 2), (2, 1)], c11_variants(spec), &c11_oracle::<Tk>),
         ("C11", "map", "zst") => run_pairs::<MapWorld<()>>(spec, cur, fam_map, &RENAMES[..1], &[(1, 1), (1, 2)], 2, &c11_oracle::<()>),
+        ("C11", "set", "u32") => run_pairs::<SetWorld<u32>>(spec, cur, fam_set, &[RENAMES[0], RENAMES[3]], &[(1, 1), (1, 2), (2, 1)], 2, &c11_set_oracle::<u32>),
+        ("C11", "set", "tk") => run_pairs::<SetWorld<Tk>>(spec, cur, fam_set, &[RENAMES[0], RENAMES[3]], &[(1, 1), (1, 2), (2, 1)], 2, &c11_set_oracle::<Tk>),
         ("C16", "set", "u32") => run_pairs::<SetWorld<u32>>(spec, cur, fam_set, &[RENAMES[0], RENAMES[1]], &seeds2, 4, &c16_pair_oracle::<u32>),
         ("C16", "set", "tk") => run_pairs::<SetWorld<Tk>>(spec, cur, fam_set, &[RENAMES[0], RENAMES[1]], &seeds2, 4, &c16_pair_oracle::<Tk>),
         (p, w, t) => panic!("no pair oracle for {} {} {}", p, w, t),
@@ -598,6 +637,8 @@ pub fn replay_e3(spec: &ShardSpec, joined: &[Op]) -> VResult<()> {
         ("C11", "map", "u32") => replay_pair::<MapWorld<u32>>(spec, joined, &c11_oracle::<u32>),
         ("C11", "map", "tk") => replay_pair::<MapWorld<Tk>>(spec, joined, &c11_oracle::<Tk>),
         ("C11", "map", "zst") => replay_pair::<MapWorld<()>>(spec, joined, &c11_oracle::<()>),
+        ("C11", "set", "u32") => replay_pair::<SetWorld<u32>>(spec, joined, &c11_set_oracle::<u32>),
+        ("C11", "set", "tk") => replay_pair::<SetWorld<Tk>>(spec, joined, &c11_set_oracle::<Tk>),
         ("C16", "set", "u32") => replay_pair::<SetWorld<u32>>(spec, joined, &c16_pair_oracle::<u32>),
         ("C16", "set", "tk") => replay_pair::<SetWorld<Tk>>(spec, joined, &c16_pair_oracle::<Tk>),
         (p, w, t) => Err(Viol::new("machinery", format!("no pair replay for {} {} {}", p, w, t))),
